@@ -196,6 +196,66 @@ def run_case(ctx, data, cuts, conts, rseed, use_ctor=False):
     return inside
 
 
+def run_tokenizer_case(ctx, data, cuts, rseed):
+    """The documented mido.tokenizer.Tokenizer used directly: chunked feeding with tokens taken out by
+    len() / next() on kept, renewed and abandoned iterators / list() / for-break between the calls."""
+    from mido.tokenizer import Tokenizer
+    case = lambda: {'kind': 'tokenizer', 'bytes': bytes(data), 'cuts': list(cuts), 'rseed': rseed}  # noqa: E731
+    produced, ref = reference(data)
+    want = [m.bytes() for m in ref]
+    rng = random.Random(rseed)
+    cuts = tuple(sorted({min(max(c, 0), len(data)) for c in cuts}))
+    chunks = gen.split_at(list(data), cuts)
+    tok = Tokenizer()
+    got, pos, it = [], 0, None
+    try:
+        for ci, chunk in enumerate(chunks):
+            if len(chunk) == 1 and rng.random() < 0.5:
+                tok.feed_byte(chunk[0])
+            else:
+                tok.feed((list, bytes, bytearray)[ci % 3](chunk))
+            pos += len(chunk)
+            for _ in range(rng.choice((0, 1, 2, 3))):
+                op = rng.choice(('len', 'next', 'newiter-next', 'list', 'break', 'dropiter'))
+                exp = produced[pos] - len(got)
+                if op == 'len':
+                    ctx.check('pending == produced - retrieved', len(tok) == exp, 'tokenizer:len', case,
+                              lambda: {'len()': len(tok), 'model': exp})
+                elif op == 'dropiter':
+                    it = None
+                elif op in ('next', 'newiter-next'):
+                    if it is None or op == 'newiter-next':
+                        it = iter(tok)
+                    try:
+                        t = next(it)
+                    except StopIteration:
+                        it = None
+                        ctx.check('get_message None iff none pending', exp == 0, 'tokenizer:iter-stopped-early', case,
+                                  {'pending_model': exp})
+                    else:
+                        ctx.check('retrieved == reference (FIFO)', exp > 0 and list(t) == want[len(got)], f'tokenizer:fifo:{op}',
+                                  case, lambda: {'got': list(t)[:12], 'pending_model': exp})
+                        got.append(list(t))
+                elif op == 'break':
+                    for t in tok:
+                        ctx.check('retrieved == reference (FIFO)', exp > 0 and list(t) == want[len(got)], 'tokenizer:fifo:break',
+                                  case, lambda: {'got': list(t)[:12], 'pending_model': exp})
+                        got.append(list(t))
+                        break
+                else:
+                    ts = [list(t) for t in tok]
+                    ctx.check('retrieved == reference (FIFO)', ts == want[len(got):len(got) + exp], 'tokenizer:fifo:list', case,
+                              lambda: {'got': ts[:4], 'pending_model': exp})
+                    got.extend(ts)
+        ctx.check('pending == produced - retrieved', len(tok) == produced[pos] - len(got), 'tokenizer:len-final', case,
+                  lambda: {'len()': len(tok), 'model': produced[pos] - len(got)})
+        got.extend(list(t) for t in tok)
+        ctx.check('final sequence == reference', got == want and len(tok) == 0, 'tokenizer', case,
+                  lambda: {'got': got[:6], 'want': want[:6]})
+    except Exception as exc:
+        ctx.fail('no exception', f'tokenizer:{type(exc).__name__}', case, f'{type(exc).__name__}: {exc}')
+
+
 def checkpoint_case(ctx, data, cut, how):
     """A parser is duplicated mid-stream (copy.deepcopy / pickle); both go on independently."""
     import copy
@@ -322,6 +382,9 @@ def run(ctx):
             run_queue_case(ctx, data, cuts, rseed)
             n += 1
             ctx.nontrivial(('q', hash(bytes(data)), tuple(cuts)))
+            run_tokenizer_case(ctx, data, cuts, rseed)
+            n += 1
+            ctx.nontrivial(('tok', hash(bytes(data)), tuple(cuts)))
     ctx.extra('long_streams_random_chunkings', nl)
     # sysex beyond 64 KiB delivered in several calls (a cut after the 65 536th byte, a last chunk holding
     # only the F7), and more than 4 096 / 2**18 messages pending at once
@@ -370,6 +433,8 @@ def replay(ctx, case):
                  case['rseed'], case.get('ctor', False))
     elif case['kind'] == 'queue':
         run_queue_case(ctx, list(case['bytes']), tuple(case['cuts']), case['rseed'])
+    elif case['kind'] == 'tokenizer':
+        run_tokenizer_case(ctx, list(case['bytes']), tuple(case['cuts']), case['rseed'])
     else:
         data = list(case['bytes'])
         _, ref = reference(data)
